@@ -38,6 +38,9 @@ UNOPS = {ast.USub: '-', ast.UAdd: '+', ast.Not: 'not', ast.Invert: '~'}
 NEG = {'==': '!=', '!=': '==', '<': '>=', '>=': '<', '>': '<=', '<=': '>', 'is': 'isnot', 'isnot': 'is',
        'in': 'notin', 'notin': 'in'}
 
+IMPURE_PREFIXES = ('numpy.random.', 'random.')
+PURE_EXCEPTIONS = {'numpy.random.RandomState', 'numpy.random.default_rng', 'numpy.random.seed',
+                   'numpy.random.get_state', 'numpy.random.set_state'}
 MUTATING_METHODS = {'append', 'extend', 'pop', 'sort', 'update', 'clear', 'setdefault', 'fill', 'insert',
                     'remove', 'reverse', 'put', 'resize', 'popitem', 'itemset', 'partition', 'byteswap'}
 
@@ -808,7 +811,7 @@ class Evaluator:
                 if is_c(a):
                     r = a[1] is None
                 elif a in st.notnone or a[0] in ('dict', 'list', 'tuple', 'set', 'bin', 'cmp', 'setitem', 'mut',
-                                                 'comp', 'func'):
+                                                 'comp', 'func') or _is_array_expr(a):
                     r = False
                 if r is not None:
                     return r if op == 'is' else (not r)
@@ -1072,6 +1075,10 @@ class Evaluator:
                 return [(('call', d, tuple(pos), tuple(sorted(kws, key=lambda x: x[0]))), st, 'ok')]
         self.stats['calls_resolved'] += 1
         if callee.kind == 'lib':
+            if callee.dotted.startswith(IMPURE_PREFIXES) and callee.dotted not in PURE_EXCEPTIONS:
+                # every evaluation of a sampler is a distinct draw: tag the term so two draws never compare equal
+                kws = list(kws) + [('#draw', C(next(self._fresh)))]
+                st.effects.append(('rng', callee.dotted, ln))
             return [(('call', callee.dotted, tuple(pos), tuple(sorted(kws, key=lambda x: x[0]))), st, 'ok')]
         # repo function or class: bind to formals
         f = callee.func
@@ -1200,6 +1207,19 @@ def _rooted_in_env_call(fexpr, st, fi):
     if r in ('self', 'cls'):
         return False
     return r in st.env
+
+
+def _is_array_expr(t):
+    """Values that are certainly arrays (never None): arithmetic results, numpy
+    constructors/samplers and basic slices of those."""
+    if t[0] == 'bin':
+        return True
+    if t[0] == 'call' and t[1].startswith(('numpy.random.', 'numpy.zeros', 'numpy.ones', 'numpy.array',
+                                           'numpy.arange', 'numpy.linspace', 'numpy.concatenate')):
+        return True
+    if t[0] == 'sub' and (t[2][0] in ('tuple', 'slice')) and _is_array_expr(t[1]):
+        return True
+    return False
 
 
 def _mk_sub(base, idx):
